@@ -180,6 +180,28 @@ EXTRA5 = {
  'C19': 'The independent-variable header line names the variable written as first column; an encoding fixed by the writer is the default encoding of the reader.',
  'C20': 'The checksum is the byte sum modulo 255; the YYMMDDHHFF stamp is cut to eight characters and parsed as %y%m%d%H.',
 }
+# clauses added after the sixth held-out wave
+EXTRA6 = {
+ 'C01': 'The attribute-name list extended with += (k, ) is always a tuple; insertDimension creates a dimension only when the result lacks it.',
+ 'C02': 'The test of the pointwise branch of sliceDimensions is evaluated on 9 cases when it is not in the known spelling; fill values are never used as truth values; `p = p or <tuple>` is reported.',
+ 'C03': 'Every reducer call of reduce_dim keeps the axis; the weights of convolve_dim are not rescaled; elapsed times come from total_seconds().',
+ 'C04': 'A stack override that rebuilds the time coordinate writes the unit word of its own divisor.',
+ 'C05': 'np.ma.fix_invalid(copy=False) on a view of an input and getVarlist() without update=False are writes to the receiver.',
+ 'C06': 'createVariable hands the initial values over as given; seqpncbo re-inserts the intermediate result at the front.',
+ 'C07': 'A type code is never taken from dtype.kind.',
+ 'C08': 'The year-end helper uses the pivot of the readers; a local that fills a header count has one definition, a dimension length; time stamps written inside the time loop of a met writer are defined per step.',
+ 'C10': 'ioapi_sort_meta counts the names decoded from VAR-LIST; add_ioapi_from_cf takes SDATE / STIME from record 0 of the arrays that fill TFLAG; time flags are encoded per time.',
+ 'C11': 'A step is not encoded through strftime of a date plus the step (wraps at 24 h; defect fixed in /repo f1a6a62).',
+ 'C12': 'Arithmetic decoding of packed H..HMMSS values uses the radices 10000 and 100 and never reduces the hours.',
+ 'C13': 'Header-layout branches of an end-of-file scan update the same attributes, no stamp-comparison exit; both readers of a format share the default grid shape (defect fixed in /repo 429fc54).',
+ 'C14': 'The tested remainder is that of the TSTEP quotient itself; the bpch header scan compares for equality only; bpch1 does not raise on a partial trailing block.',
+ 'C15': 'Module-level containers (also built with +) are not mutated through an alias.',
+ 'C16': 'time2t examines the resolution of the queries and of the file times; the closing-edge clamp lets NaN through; the UTC conversion gate covers every element.',
+ 'C17': 'Options reach getinterpweights on the parameter of their name; interpvars keeps the source type.',
+ 'C18': 'RESERVED is kept as read; each record type uses the dimensions of its own header; a group view looks the group-prefixed key up first.',
+ 'C19': 'Per-variable lists are read at the loop index; column names come from split(); a made-up revision date has the format the reader parses.',
+ 'C20': 'The within-row differences cover every column; nothing is stored into the decoded array after the cumulative sums; levels between 0 and 1 with five decimals format back.',
+}
 NA = {}
 
 CLAIMED.update({
@@ -213,6 +235,8 @@ def main():
             note = note + ' ' + EXTRA4[pid]
         if pid in EXTRA5:
             note = note + ' ' + EXTRA5[pid]
+        if pid in EXTRA6:
+            note = note + ' ' + EXTRA6[pid]
         note = note + ' Generic baseline-relative rules over the anchored files (pncstatic/generic.py): unused parameters, read mutable defaults, collapsed element-wise choices, uncalled methods, one-shot iterators, module and class state, truthiness defaults of numeric options, broken swaps, un-adapted sibling statements. Clauses added wave by wave are listed in DESIGN section 4.'
         mod = importlib.import_module('pncstatic.rules.%s' % pid.lower())
         checks.append(dict(
